@@ -942,12 +942,16 @@ class C07(PropBase):
             elif c["name"] in MUT + ("persist",):
                 if "err=NoLog" not in (outcome_of(c) or ""):
                     last_obs = logical(obs_of(c))
+            elif c["name"] == "open" and i > 0 and tr[i - 1]["name"] != "drop":
+                # an open that follows out-of-band damage: what it recovered is the new baseline (judged by C08/C09/C10)
+                if outcome_of(c) == "out open ok":
+                    last_obs = logical(obs_of(c))
             elif c["name"] == "open" and i > 0 and tr[i - 1]["name"] == "drop":
                 if outcome_of(c) != "out open ok":
                     vs.append({"msg": "cmd %d: reading the files back failed: %r" % (i, outcome_of(c)), "shape": "file-roundtrip"})
                     return vs
                 if last_obs is not None and logical(obs_of(c)) != last_obs:
-                    vs.append({"msg": "cmd %d: entries read back from the files differ: before %r after %r" % (i, summarize(last_obs), summarize(logical(obs_of(c)))), "shape": "file-roundtrip"})
+                    vs.append({"msg": "cmd %d: entries read back from the files differ: before %r after %r" % (i, summarize(last_obs), summarize(logical(obs_of(c)))), "shape": "file-roundtrip", "shrinkable": False})
                     return vs
         return vs
 
@@ -1347,8 +1351,11 @@ def forge_block_entries(rng, qnames):
     """a CRC-valid block built from random entries with extreme field values"""
     B = mrl.B
     out = b""
+    # queue names that the API can never write: not UTF-8 (of lengths around every small constant the decoder might
+    # use: 1, 2, 9, 10, 11, 40), over-long UTF-8 encodings, a lone continuation byte, embedded NUL
+    odd = [b"\xff", b"\xff\xfe", b"\xc3", b"\x80abc", b"q\xffq", b"\xff" * 9, b"\xfe" * 10, b"\xff" * 11, b"ab\xc0\xaf" * 10, b"\x00", b"a\x00b"]
     while len(out) < B - 200 and rng.random() < 0.93:
-        q = rng.choice(qnames)
+        q = rng.choice(qnames) if rng.random() < 0.75 else rng.choice(odd)
         tag = rng.choice([1, 2, 3, 4, 4, 4])
         pos = rng.choice([0, 1, 5, 2 ** 32, 2 ** 63, 2 ** 64 - 2, rng.randrange(0, 50)])
         body = b""
@@ -1525,6 +1532,18 @@ class C11(TwoPass):
         return 6000
 
     def base_history(self, rng, i):
+        if i % 4 == 1:
+            # an I/O failure met while recovery is LEAVING a damaged block (a frame header whose type byte is not a
+            # frame type makes the reader drop the rest of that block): append-only history, so that file 0 keeps all
+            # its blocks; block j of file 0 gets an unparsable first header; the traced fault-free open of the damaged
+            # directory gives the call counts the fault plans range over
+            cmds = ["open af", "create =q"]
+            for k in range(rng.randrange(5, 9)):
+                cmds.append("append =q - %d:%d" % (rng.choice([30000, 50000, 70000]), 300 + k))
+            j = rng.choice([1, 2, 3])
+            cmds += ["drop", "damage 0 %d x%s" % (j * mrl.B + 6, rng.choice(["ff", "00", "09"])), "open af"]
+            self.stats["damaged_header_bases"] = self.stats.get("damaged_header_bases", 0) + 1
+            return cmds, _G(cmds, ["=q"])
         g = HistGen(rng, policy="af", max_payload=60000)
         g.run(rng.randrange(4, 16), weights={"create": 8, "delete": 3, "append": 65, "truncate": 14, "persist": 0, "restart": 0})
         self.merge_stats(g.stats)
@@ -1692,6 +1711,12 @@ class C12(TwoPass):
                                           ("t", o + 6, rng.choice([0, 5, 9, 77, 255])),
                                           ("c", o + rng.randrange(0, 4), rng.randrange(1, 256))):
                         out.append(("%s_%s_i%s%d" % (bid, meta, tag, k), cmds + ["damage %d %d x%02x" % (f, off, val), "open af"]))
+                        self.stats["damage_images"] = self.stats.get("damage_images", 0) + 1
+                    # header rewritten to an EMPTY frame (length 0), keeping its type or claiming to be the Last one: the
+                    # checksum covers type + payload, so only the CRC check stands between this header and a batch that
+                    # ends early
+                    for tag, data in (("z", "0000"), ("l", "000004"), ("f", "000001")):
+                        out.append(("%s_%s_i%s%d" % (bid, meta, tag, k), cmds + ["damage %d %d x%s" % (f, o + 4, data), "open af"]))
                         self.stats["damage_images"] = self.stats.get("damage_images", 0) + 1
                 frames = []
             for ((f, o), n) in frames[: nfr]:
@@ -1930,6 +1955,12 @@ class C18(PropBase):
         bases = []
         for i in range(nb):
             rng = random.Random(self.rng.random())
+            if i % 3 == 0:
+                # one GC pass, triggered by a call on one queue, releases several files while another file holds calls
+                # of OTHER queues that supersede older content (a delete, a truncate): a crash among the unlinks
+                a = aimed_gc_base(rng, 4, ["af"], self.stats)
+                bases.append(("%sc%d" % (tag, i), a.cmds, a, rng))
+                continue
             g = HistGen(rng, policy="af", nqueues=rng.choice([2, 3]), max_payload=70000)
             g.run(rng.randrange(6, 18), weights={"create": 9, "delete": 4, "append": 60, "truncate": 22, "persist": 0, "restart": 3})
             bases.append(("%sc%d" % (tag, i), g.cmds, g, rng))
@@ -1948,7 +1979,8 @@ class C18(PropBase):
             torn = sorted([p for p in pts if p[2]], key=lambda p: (rng.random()))
             evs = {e["idx"]: e for _, e in trace_events(tr)}
             bb = [p for p in torn if (evs[p[1]]["off"] + p[2]) % mrl.B == 0]
-            chosen = (bb[:3] + torn[:2] + [p for p in pts if not p[2]][:1])[:4]
+            unl = [p for p in pts if not p[2] and p[1] in evs and evs[p[1]]["kind"] == "unlink"]
+            chosen = (unl[:4] + bb[:3] + torn[:2] + [p for p in pts if not p[2]][:1])[:6]
             for (ci, cut, k) in chosen:
                 inflight = split_cmd(cmds[ci])[1]
                 others = [t for t in g.names if t != inflight]
